@@ -24,6 +24,8 @@ inductive NodeKind where
   | inst (pkg : Nat)
   /-- `NodeKind::Alias`; the `Edge::Alias(index)` from `src` is kept in the node -/
   | alias (src : Nat) (index : Nat)
+  /-- `NodeKind::Definition` (a type declared in the document, exported under `name`) -/
+  | defn (name : Str)
 
 structure Node where
   kind : NodeKind
@@ -161,6 +163,15 @@ def Graph.setInstantiationArgument (g : Graph) (inst : Nat) (name : Str) (arg : 
       if (g.kindOf arg).sub expected then
         .ok { g with edges := g.edges ++ [{ src := arg, dst := inst, index := index }] }
       else .error .argumentTypeMismatch
+
+/-- `CompositionGraph::define_type` (for a fresh type; name validity is not modelled):
+    `DefineTypeError::ExportConflict` becomes `Error::DeclarationConflict` -/
+def Graph.defineType (g : Graph) (name : Str) (kind : Kind) : Except Diag (Graph × Nat) :=
+  if alHas name g.exports then .error (.declarationConflict name)
+  else
+    let id := g.nodes.length
+    .ok ({ g with nodes := g.nodes ++ [{ kind := .defn name, item := kind, prov := .defn name }],
+                  exports := g.exports ++ [(name, id)] }, id)
 
 /-- `CompositionGraph::get_export` -/
 def Graph.getExport (g : Graph) (name : Str) : Option Nat := alGet name g.exports
@@ -435,30 +446,51 @@ def resolvePackagePath (st : State) (pkg : Str) (ver : Option Str) (segs : List 
         | .ok k => .ok (st, k)
 
 /-- `import_statement`: "Determine the import name to use" -/
-def importStatementName (id : Str) (as : Option Str) (ty : ImportTy) : Str :=
+def importStatementName (st : State) (id : Str) (as : Option Str) (ty : ImportTy) : Except Diag Str :=
   match as with
-  | some name => name
+  | some name => .ok name
   | none =>
     match ty with
-    | .path pkg ver segs => pathString pkg ver segs
-    | .func _ => id
-    | .iface _ => id
+    | .path pkg ver segs => .ok (pathString pkg ver segs)
+    | .func _ => .ok id
+    | .iface _ => .ok id
+    | .ident x =>
+      match st.localItem x with
+      | .error e => .error e
+      | .ok item =>
+        match st.graph.kindOf item with
+        | .inst (some iid) _ => .ok iid
+        | _ => .ok id
 
 /-- `import_statement`: "Determine the kind for the item to import" -/
 def importStatementKind (st : State) (ty : ImportTy) : Except Diag (State × Kind) :=
   match ty with
   | .path pkg ver segs => resolvePackagePath st pkg ver segs
   | .func sig => .ok (st, .func sig)
-  | .iface fs => .ok (st, .inst none (Exports.ofList (fs.map fun (n, s) => (n, Kind.func s))))
+  | .iface fs => .ok (st, .inst none (funcsKind fs))
+  | .ident x =>
+    match st.localItem x with
+    | .error e => .error e
+    | .ok item => .ok (st, (st.graph.kindOf item).promote)
 
 /-- `AstResolver::import_statement` -/
 def importStatement (st : State) (id : Str) (as : Option Str) (ty : ImportTy) : Except Diag State :=
-  match importStatementKind st ty with
+  match importStatementName st id as ty with
   | .error e => .error e
-  | .ok (st, kind) =>
-    match st.graph.import (importStatementName id as ty) kind with
+  | .ok name =>
+    match importStatementKind st ty with
     | .error e => .error e
-    | .ok (g, node) => State.registerName { st with graph := g } id node
+    | .ok (st, kind) =>
+      match st.graph.import name kind with
+      | .error e => .error e
+      | .ok (g, node) => State.registerName { st with graph := g } id node
+
+/-- `AstResolver::type_statement` for `interface id { name: func(…); … }` (`interface_decl` +
+    `define_type` + `register_name`) -/
+def typeStatement (self : Str) (st : State) (id : Str) (funcs : List (Str × Nat)) : Except Diag State :=
+  match st.graph.defineType id (.ifaceTy (some (declId self id)) (funcsKind funcs)) with
+  | .error e => .error e
+  | .ok (g, node) => State.registerName { st with graph := g } id node
 
 /-- `AstResolver::let_statement` -/
 def letStatement (self : Str) (st : State) (id : Str) (e : Expr) : Except Diag State :=
@@ -478,11 +510,22 @@ def inferExportName (st : State) (item : Nat) : Option Str :=
       | some (_, name) => some name
       | none => none
 
-/-- `AstResolver::export_item` (no definitions in the sublanguage, so no `ExportConflict`) -/
+/-- is the node a `NodeKind::Definition`? -/
+def Graph.isDefinition (g : Graph) (n : Nat) : Bool :=
+  match g.node? n with
+  | some { kind := .defn _, .. } => true
+  | _ => false
+
+/-- `AstResolver::export_item`: `ExportConflict` when the name is bound (root scope) to a definition -/
 def exportItem (st : State) (item : Nat) (name : Str) : Except Diag State :=
-  match st.graph.export item name with
-  | .error e => .error e
-  | .ok g => .ok { st with graph := g }
+  let conflict := match alGet name st.scope with
+    | some n => st.graph.isDefinition n
+    | none => false
+  if conflict then .error (.exportConflict name)
+  else
+    match st.graph.export item name with
+    | .error e => .error e
+    | .ok g => .ok { st with graph := g }
 
 /-- the `for name in exports` loop of the spread arm of `export_statement` -/
 def spreadExportLoop (item : Nat) (st : State) (exported : Bool) : List Str → Except Diag (State × Bool)
@@ -530,6 +573,10 @@ def resolveStmts (self : Str) : State → List Stmt → Except Diag State
     | .ok st => resolveStmts self st rest
   | st, .exp e opt :: rest =>
     match exportStatement self st e opt with
+    | .error e => .error e
+    | .ok st => resolveStmts self st rest
+  | st, .iface id funcs :: rest =>
+    match typeStatement self st id funcs with
     | .error e => .error e
     | .ok st => resolveStmts self st rest
 
